@@ -1,7 +1,8 @@
 """C16 - ulist, dictattr and Dict implement ordered set / key algebra without side effects.
 
 Protocol (model name c16, see lean/PygModel/USetDriver.lean):
-  ulist histories over handles: u.new / u.copy / u.add / u.and / u.sub (element or list operand) / u.addh / u.andh / u.subh
+  ulist histories over handles: u.new / u.copy / u.add / u.and / u.sub (element or list operand) / u.addh / u.andh / u.subh;
+      in place on a handle: u.append / u.extend / u.iadd / u.insert / u.setitem / u.imul (reply: the contents afterwards)
   dictattr key algebra, stateless: d.sub d.and d.getl d.gett d.get d.add d.relabel d.keys on (DC <cls> (hexkey v)*)
       cls 1 = pyg_base.Dict, 2 = pyg_base.dictattr, 3 = a subclass of dictattr defined here
   dictattr histories over handles (heap model lean/PygModel/DAHeap.lean): h.new / h.copy / h.sub / h.and / h.add / h.addh / h.getl /
@@ -12,14 +13,15 @@ Protocol (model name c16, see lean/PygModel/USetDriver.lean):
 The implementation runner snapshots every operand before an operation and re-reads it afterwards; a changed operand or a
 result of the wrong class is reported in the reply itself (`mutated ...`, `wrongtype ...`) and is a violation.
 """
-import itertools
+import itertools, copy as _copy, re, inspect
 from .. import proto
 from ..proto import enc
 from ..engine import Finding
 
 ID = 'C16'
 TITLE = 'ulist, dictattr and Dict implement ordered set/key algebra without side effects'
-LEAN_FILES = ['Basic', 'USet', 'DictCall', 'DAHeap', 'USetDriver', 'USetLemmas', 'DictCallLemmas', 'DictCallOrder', 'C16']
+LEAN_FILES = ['Basic', 'USet', 'DictCall', 'DAHeap', 'Tree', 'DictAdd', 'USetDriver', 'USetLemmas', 'DictCallLemmas', 'DictCallOrder', 'DAHeapLemmas',
+              'TreeLemmas', 'TreeMerge', 'C16']
 RULE = ('distinct protocol lines on which the implementation returned a value or the error the statement prescribes, '
         'excluding operations on an empty ulist / empty mapping with an empty operand')
 TRUSTED = ['correspondence harness (pv.engine, pv.proto) and the generators / operand snapshots of pv.props.c16',
@@ -27,12 +29,19 @@ TRUSTED = ['correspondence harness (pv.engine, pv.proto) and the generators / op
 ASSUMPTIONS = ['python == / hash on the generated elements (None, ints, quarter floats, strings, tuples of them; no bools, no NaN) is decidable equality after int->float canonicalisation',
                'python dict semantics: insertion order, d[k]=v overwrites in place or appends, dict(**{...}) and update() are successive assignments',
                'kwargs_support(f)(**params) passes exactly the declared arguments by name and raises TypeError when one is missing; generated functions are lambda args: c + 1*a1 + 2*a2 + ... and never declare an argument named key',
-               'attribute access (getattr/setattr/delattr = item access, AttributeError for KeyError) and in-place writes are modelled on a heap of handles (DAHeap); attribute names are identifiers without a leading underscore that are not attributes of dict; object identity beyond handles (aliasing of values) is not modelled',
+               'attribute access (getattr/setattr/delattr = item access, AttributeError for KeyError) and in-place writes are modelled on a heap of handles (DAHeap); a name that is a public attribute of the class (DAHeap.shadowed, compared with dir(cls) by a law) yields the bound method, a private name (leading underscore) is written to the instance dict which is not modelled (known finding K1); object identity beyond handles (aliasing of values) is not modelled',
+               'Dict + other is tree_update (C15): modelled by DA.addC / PygModel.DictAdd on the C15 model Tree.itemsToTree; with dict values on both sides it is the recursive merge, not {**d, **o}',
                'tuple paths (d - (a, b)), dotted keys and relabelling onto an existing key are outside the statement and not generated; self-referential callables are outside the acyclic statement and generated for correspondence only (call-selfloop)']
 
 ELEMS = [None, 0, 1, 2, 3, 4, 5, 1.0, 2.0, 2.5, 'a', 'b', 'c', '', (1, 2), (1, 'a'), (2.0, 1), ()]
 KEYS = ['a', 'b', 'c', 'd', 'e', 'x', 'y']
-VALS = [None, 0, 1, 2, 2.5, 'u', 'v', (1, 2), [1, 2]]
+FLAT_VALS = [None, 0, 1, 2, 2.5, 'u', 'v', (1, 2), [1, 2]]
+# dict VALUES: `Dict + other` is tree_update (C15), so a dict under the same key on both sides is merged while dictattr replaces it
+DICT_VALS = [{'x': 1}, {'y': 2}, {'x': 3, 'z': 'u'}, {'x': {'z': 1}}, {'x': {'w': 2}, 'y': 0}, {'x': None}]
+EMPTY_VALS = [{}, {'x': {}}]            # empty branches: outside C15's quantifier (Dict + {'b': {}} drops b); generated, divergence-only
+VALS = FLAT_VALS + DICT_VALS
+# names that python finds on the CLASS before __getattr__ is asked (known finding K1), and a private name
+SHADOW_KEYS = ['keys', 'items', 'copy', 'get', 'update', 'values', 'pop', 'relabel', 'rename', 'apply', 'do']
 
 
 def _cls(n):
@@ -64,9 +73,22 @@ def gen_ulist_history(rng):
         h = rng.randrange(n)
         if r < 0.1:
             lines.append('(c16 u.new %s)' % enc(rand_elems(rng, pool)))
-        elif r < 0.15:
+        elif r < 0.3:
+            # the inherited in-place list operations (no new handle): they must keep the members unique too
+            m = rng.choice(['append', 'extend', 'iadd', 'insert', 'setitem', 'imul'])
+            e = enc(rng.choice(pool))
+            if m in ('extend', 'iadd'):
+                lines.append('(c16 u.%s %d %s)' % (m, h, enc(rand_elems(rng, pool))))
+            elif m == 'append':
+                lines.append('(c16 u.append %d %s)' % (h, e))
+            elif m == 'imul':
+                lines.append('(c16 u.imul %d %d)' % (h, rng.choice([0, 1, 2, 3])))
+            else:
+                lines.append('(c16 u.%s %d %d %s)' % (m, h, rng.choice([0, 0, 1, 2, 3, 5]), e))
+            continue
+        elif r < 0.35:
             lines.append('(c16 u.copy %d)' % h)
-        elif r < 0.4:
+        elif r < 0.5:
             lines.append('(c16 %s %d %d)' % (rng.choice(['u.addh', 'u.andh', 'u.subh']), h, rng.randrange(n)))
         else:
             op = rng.choice(['u.add', 'u.and', 'u.sub'])
@@ -76,9 +98,32 @@ def gen_ulist_history(rng):
     return dict(tag='ulist-history', lines=lines)
 
 
-def rand_da(rng):
+def rand_val(rng):
+    r = rng.random()
+    return rng.choice(FLAT_VALS) if r < 0.7 else rng.choice(DICT_VALS) if r < 0.97 else rng.choice(EMPTY_VALS)
+
+
+def rand_da(rng, shadow=False):
     ks = rng.sample(KEYS, rng.choice([0, 1, 2, 3, 4, 5]))
-    return rng.choice([1, 2, 2, 3]), {k: rng.choice(VALS) for k in ks}
+    if shadow:
+        ks = ks[:3] + rng.sample(SHADOW_KEYS, rng.choice([1, 2]))
+        rng.shuffle(ks)
+    return rng.choice([1, 1, 2, 2, 3]), {k: rand_val(rng) for k in ks}
+
+
+def rand_other(rng, d):
+    """the right operand of +: new keys, keys of d, and - the case that separates Dict from dictattr - a dict over a dict"""
+    o = {k: rand_val(rng) for k in rng.sample(KEYS, rng.choice([0, 1, 2, 3]))}
+    for k, v in d.items():
+        if isinstance(v, dict) and rng.random() < 0.5:
+            o[k] = rng.choice(DICT_VALS)
+    items = list(o.items())
+    rng.shuffle(items)
+    return dict(items)
+
+
+def _has_empty(x):
+    return isinstance(x, dict) and (not x or any(_has_empty(v) for v in x.values()))
 
 
 def rand_keysel(rng, d):
@@ -107,8 +152,11 @@ def gen_da(rng):
     elif op == 'd.get':
         arg = enc(ks[0] if ks else 'zz')
     elif op == 'd.add':
-        o = {k: rng.choice(VALS) for k in rng.sample(KEYS, rng.choice([0, 1, 2, 3]))}
+        o = rand_other(rng, d)
         arg = enc(o)
+        if cls == 1 and any(isinstance(v, dict) for v in o.values()):
+            tag = 'd.add-Dict-merge' if any(isinstance(d.get(k), dict) and isinstance(v, dict) for k, v in o.items()) else 'd.add-Dict-branch'
+            return dict(tag=tag + ('-empty' if any(_has_empty(v) for v in o.values()) else ''), lines=['(c16 d.add %s %s)' % (D, arg)])
     elif op == 'd.relabel':
         olds = rng.sample(KEYS, rng.choice([0, 1, 2]))
         fresh = ['A', 'B', 'C', 'D2']
@@ -121,7 +169,8 @@ def gen_da(rng):
 def gen_da_history(rng):
     """a history of operators / in-place writes / reads over dictattr handles; `shadow` (plain dicts) only serves to pick
     mostly-valid keys and to know how many handles exist (an operator that raises allocates nothing)"""
-    cls, d = rand_da(rng)
+    shadowed = rng.random() < 0.12          # some histories use keys that are also method names (known finding K1)
+    cls, d = rand_da(rng, shadowed)
     lines = ['(c16 h.new %s)' % encd(cls, d)]
     shadow = [dict(d)]
     classes = [cls]
@@ -130,7 +179,9 @@ def gen_da_history(rng):
         d = shadow[h]
         ks = rand_keysel(rng, d)
         k1 = ks[0] if ks else rng.choice(KEYS + ['zz'])
-        op = rng.choice(['new', 'copy', 'sub', 'sub', 'and', 'add', 'addh', 'getl', 'relabel', 'set', 'set', 'setattr', 'setattr',
+        if shadowed and rng.random() < 0.5:
+            k1 = rng.choice(SHADOW_KEYS + ['_p'])
+        op = rng.choice(['set', 'setattr', 'getattr', 'getattr', 'delattr', 'get']) if shadowed and rng.random() < 0.4 else rng.choice(['new', 'copy', 'sub', 'sub', 'and', 'add', 'addh', 'getl', 'relabel', 'set', 'set', 'setattr', 'setattr',
                          'del', 'delattr', 'get', 'getattr', 'gett', 'keys'])
         if op == 'new':
             cls2, d2 = rand_da(rng)
@@ -148,7 +199,7 @@ def gen_da_history(rng):
             lines.append('(c16 h.and %d %s)' % (h, enc(ks)))
             shadow.append({k: v for k, v in d.items() if k in ks})
         elif op == 'add':
-            o = {k: rng.choice(VALS) for k in rng.sample(KEYS, rng.choice([0, 1, 2, 3]))}
+            o = rand_other(rng, d)
             lines.append('(c16 h.add %d %s)' % (h, enc(o)))
             shadow.append({**d, **o})
         elif op == 'addh':
@@ -171,7 +222,7 @@ def gen_da_history(rng):
             lines.append('(c16 h.relabel %d %s)' % (h, enc(m)))
             shadow.append({m.get(k, k): v for k, v in d.items()})
         elif op in ('set', 'setattr'):
-            v = rng.choice(VALS)
+            v = rand_val(rng)
             lines.append('(c16 h.%s %d %s %s)' % (op, h, enc(k1), enc(v)))
             d[k1] = v
         elif op in ('del', 'delattr'):
@@ -185,7 +236,7 @@ def gen_da_history(rng):
             lines.append('(c16 h.keys %d)' % h)
         classes += [classes[h]] * (len(shadow) - len(classes))          # an operator's result has the receiver's class
     lines.append('(c16 h.dump)')
-    return dict(tag='dictattr-history', lines=lines)
+    return dict(tag='dictattr-history-shadowed' if shadowed else 'dictattr-history', lines=lines)
 
 
 def call_line(env, kws):
@@ -306,6 +357,11 @@ def new_state():
     return dict(heap=[], snap=[], dheap=[], dsnap=[])
 
 
+def _snap(d):
+    """deep: a dict VALUE written through by an operator (the F7 mechanism of C15) must be seen"""
+    return _copy.deepcopy(list(d.items()))
+
+
 def _check_dheap(state):
     for i, (d, (n, s)) in enumerate(zip(state['dheap'], state['dsnap'])):
         if list(d.items()) != s or type(d) is not _cls(n):
@@ -323,7 +379,7 @@ def _run_heap(state, op, args):
         n = int(args[0][1])
         res = _cls(n)({proto.unhex(kv[0]): proto.dec(kv[1]) for kv in args[0][2:]})
         heap.append(res)
-        snap.append((n, list(res.items())))
+        snap.append((n, _snap(res)))
         return 'ok ' + encd(n, res)
     h = int(args[0])
     if h >= len(heap) or (op == 'h.addh' and int(args[1]) >= len(heap)):
@@ -332,6 +388,7 @@ def _run_heap(state, op, args):
     cls = _cls(n)
     k = int(args[1]) if op == 'h.addh' else proto.dec(args[1]) if len(args) > 1 else None
     inplace = op in ('h.set', 'h.setattr', 'h.del', 'h.delattr')
+    ksnap = _copy.deepcopy(k)
     res = None
     try:
         if op == 'h.copy':
@@ -342,9 +399,9 @@ def _run_heap(state, op, args):
             res = d & k
         elif op == 'h.add':
             res = d + k
-            alt = d | k
-            if type(alt) is not cls or dict(alt) != dict(res):
-                return 'or-differs-from-add %s' % enc(dict(alt))
+            bad = _check_or(d, k, res, cls, n)
+            if bad:
+                return bad
         elif op == 'h.addh':
             res = d + heap[k]
         elif op == 'h.getl':
@@ -354,7 +411,11 @@ def _run_heap(state, op, args):
         elif op == 'h.set':
             d[k] = proto.dec(args[2])
         elif op == 'h.setattr':
-            setattr(d, k, proto.dec(args[2]))
+            v = proto.dec(args[2])
+            setattr(d, k, v)
+            if not (k in d and (dict.__getitem__(d, k) is v or dict.__getitem__(d, k) == v)):
+                snap[h] = (n, _snap(d))
+                return 'attribute write d.%s = v did not write the item d[%r]' % (k, k)
         elif op == 'h.del':
             del d[k]
         elif op == 'h.delattr':
@@ -363,6 +424,10 @@ def _run_heap(state, op, args):
             res = d[k]
         elif op == 'h.getattr':
             res = getattr(d, k)
+            if k in d and res is not dict.__getitem__(d, k):
+                return 'attribute access d.%s differs from item access d[%r]: %s' % (k, k, 'a bound method' if inspect.isroutine(res) else enc(res))
+            if inspect.isroutine(res):
+                return 'ok method'
         elif op == 'h.keys':
             res = d.keys()
             if type(res) is not ulist:
@@ -373,8 +438,8 @@ def _run_heap(state, op, args):
     finally:
         # frame rule, also when the operation raised: nothing but the target of an in-place operation may change
         if inplace:
-            snap[h] = (n, list(d.items()))
-        bad = _check_dheap(state)
+            snap[h] = (n, _snap(d))
+        bad = _check_dheap(state) or ('mutated operand' if k != ksnap else None)
         if bad:
             return bad
     if inplace:
@@ -386,8 +451,23 @@ def _run_heap(state, op, args):
     if any(res is u for u in heap):
         return 'aliased result'
     heap.append(res)
-    snap.append((n, list(res.items())))
+    snap.append((n, _snap(res)))
     return 'ok ' + encd(n, res)
+
+
+def _flat(x):
+    return not any(isinstance(v, dict) for v in x.values())
+
+
+def _check_or(d, o, res, cls, n):
+    """`d | other` is the plain update `{**d, **other}` of the receiver's class; it equals `d + other` wherever the C16 law for +
+    applies (every class but Dict; Dict when `other` holds no dict: theorem dict_add_flat)"""
+    alt = d | o
+    if type(alt) is not cls or dict(alt) != {**d, **o}:
+        return 'or-differs-from-update %s' % enc(dict(alt))
+    if (n != 1 or _flat(o)) and dict(alt) != dict(res):
+        return 'or-differs-from-add %s' % enc(dict(alt))
+    return None
 
 
 def _check_heap(state):
@@ -408,6 +488,34 @@ def run_line(state, sx):
     op, args = sx[1], sx[2:]
     if op.startswith('u.'):
         heap = state['heap']
+        if op != 'u.new' and (int(args[0]) >= len(heap) or (op.endswith('h') and int(args[1]) >= len(heap))):
+            return 'bad-op'                   # dangling handle (only in shrunk cases): refused by the model driver too
+        if op in ('u.append', 'u.extend', 'u.iadd', 'u.insert', 'u.setitem', 'u.imul'):
+            h = int(args[0])
+            u = v = heap[h]
+            try:
+                if op == 'u.append':
+                    u.append(proto.dec(args[1]))
+                elif op == 'u.extend':
+                    u.extend(proto.dec(args[1]))
+                elif op == 'u.iadd':
+                    v += proto.dec(args[1])
+                elif op == 'u.insert':
+                    u.insert(int(args[1]), proto.dec(args[2]))
+                elif op == 'u.setitem':
+                    u[int(args[1])] = proto.dec(args[2])
+                else:
+                    v *= int(args[1])
+            finally:
+                state['snap'][h] = list(u)
+                bad = _check_heap(state)
+                if bad:
+                    return bad
+            if v is not u:
+                return 'aliased result'          # an in-place operator must return its receiver
+            if len(_dedup(list(u))) != len(u):
+                return 'duplicates %s' % enc(list(u))
+            return 'ok ' + enc(list(u))
         if op == 'u.new':
             res = ulist(proto.dec(args[0]))
         elif op == 'u.copy':
@@ -437,8 +545,9 @@ def run_line(state, sx):
         n = int(args[0][1])
         cls = _cls(n)
         d = cls({proto.unhex(kv[0]): proto.dec(kv[1]) for kv in args[0][2:]})
-        snap = list(d.items())
+        snap = _snap(d)
         k = proto.dec(args[1]) if len(args) > 1 else None
+        ksnap = _copy.deepcopy(k)
         if op == 'd.sub':
             res = d - k
         elif op == 'd.and':
@@ -447,9 +556,9 @@ def run_line(state, sx):
             res = d[k]
         elif op == 'd.add':
             res = d + k
-            alt = d | k
-            if type(alt) is not cls or dict(alt) != dict(res):
-                return 'or-differs-from-add %s' % enc(dict(alt))
+            bad = _check_or(d, k, res, cls, n)
+            if bad:
+                return bad
         elif op == 'd.relabel':
             res = d.relabel(**k)
         elif op == 'd.keys':
@@ -457,7 +566,7 @@ def run_line(state, sx):
             if type(res) is not ulist:
                 return 'wrongtype %s' % type(res).__name__
             res = list(res)
-        if list(d.items()) != snap or type(d) is not cls:
+        if list(d.items()) != snap or type(d) is not cls or k != ksnap:
             return 'mutated operand'
         if op == 'd.get' and k.isidentifier() and not k.startswith('_'):
             a = getattr(d, k)
@@ -489,24 +598,35 @@ def run_line(state, sx):
     return 'bad-op'
 
 
-def _canon_reply(r):
-    """order-insensitive canonical form of a reply (dict items sorted, numbers exact)"""
+def _canon_reply(r, ordered=True):
+    """canonical form of a reply (numbers exact).  The key ORDER of a mapping is kept: `sub_keys`, `and_keys`, `relabel_keys`,
+    `add_keys`/`setAll` pin the insertion order of every result (the order of d, new keys behind), and python `==` on dicts - which
+    ignores it - would hide a model/code difference there.  `ordered=False` gives the order-insensitive form (only used to tell
+    an order-only difference apart)."""
     a = r.split(None, 1)
     if a[0] != 'ok' or len(a) != 2:
         return r
     sx = proto.parse(a[1])
+    srt = (lambda x: tuple(x)) if ordered else (lambda x: tuple(sorted(x)))
     if isinstance(sx, list) and sx and sx[0] == 'DC':
-        return ('DC', sx[1]) + tuple(sorted((kv[0], proto.canon(kv[1])) for kv in sx[2:]))
+        return ('DC', sx[1]) + srt((kv[0], _canon_val(kv[1], ordered)) for kv in sx[2:])
     if isinstance(sx, list) and sx and sx[0] == 'H':
-        return ('H',) + tuple(('DC', d[1]) + tuple(sorted((kv[0], proto.canon(kv[1])) for kv in d[2:])) for d in sx[1:])
+        return ('H',) + tuple(('DC', d[1]) + srt((kv[0], _canon_val(kv[1], ordered)) for kv in d[2:]) for d in sx[1:])
+    return proto.canon(sx)
+
+
+def _canon_val(sx, ordered):
+    """proto.canon sorts the items of a dict value; keep their order when asked to"""
+    if ordered and isinstance(sx, list) and sx and sx[0] == 'D':
+        return ('Dord',) + tuple((kv[0], _canon_val(kv[1], ordered)) for kv in sx[1:])
     return proto.canon(sx)
 
 
 def compare(case, i, line, ir, mr):
     if ir == mr:
         return None
-    if ir.split()[0] in ('mutated', 'wrongtype', 'aliased', 'or-differs-from-add', 'attribute'):
-        return 'side effect / class / alias rule broken: %s' % ir
+    if ir.split()[0] in ('mutated', 'wrongtype', 'aliased', 'or-differs-from-add', 'or-differs-from-update', 'attribute', 'duplicates'):
+        return 'side effect / class / alias / uniqueness rule broken: %s' % ir
     try:
         ci, cm = _canon_reply(ir), _canon_reply(mr)
     except Exception:
@@ -514,9 +634,20 @@ def compare(case, i, line, ir, mr):
     if ci == cm:
         return None
     op = proto.parse(line)[1]
+    if case.get('tag', '').endswith('-empty') or _line_has_empty(line):
+        return ('divergence', 'empty dict values are outside the quantifier of C15 (Dict + other): implementation %s, model %s' % (ir, mr))
+    try:
+        if _canon_reply(ir, False) == _canon_reply(mr, False):
+            return 'same items in another ORDER: implementation %s, specification (model) %s' % (ir, mr)
+    except Exception:
+        pass
     if op == 'call' and ir.startswith('err') and mr.startswith('err') and 'ValueError' not in (ir + mr):
         return ('divergence', 'error kinds differ: %s vs %s' % (ir, mr))
     return 'implementation %s, specification (model) %s' % (ir, mr)
+
+
+def _line_has_empty(line):
+    return '(D)' in line
 
 
 def nontrivial(line, reply):
@@ -553,9 +684,58 @@ def _topo_eval(env, consts, fns):
     return res
 
 
+def _ref_add(cls_n, d, o):
+    """reference for d + o: {**d, **o}; for Dict (C15 governs dict values) a dict of o is merged into a dict of d under the same key"""
+    def merge(a, b):
+        res = dict(a)
+        for k, v in b.items():
+            if isinstance(v, dict):
+                res[k] = merge(res[k] if isinstance(res.get(k), dict) else {}, v)
+            else:
+                res[k] = v
+        return res
+    return merge(d, o) if cls_n == 1 else {**d, **o}
+
+
+INPLACE = [('append', lambda l, x, xs, i, n: l.append(x)), ('extend', lambda l, x, xs, i, n: l.extend(xs)),
+           ('+=', lambda l, x, xs, i, n: l.__iadd__(xs)), ('insert', lambda l, x, xs, i, n: l.insert(i, x)),
+           ('u[i]=x', lambda l, x, xs, i, n: l.__setitem__(i, x)), ('u[i:j]=xs', lambda l, x, xs, i, n: l.__setitem__(slice(i, i + 1), xs)),
+           ('*=', lambda l, x, xs, i, n: l.__imul__(n))]
+MODEL_SHADOWED = {1: {'clear', 'copy', 'fromkeys', 'get', 'items', 'keys', 'pop', 'popitem', 'setdefault', 'update', 'values', 'relabel', 'rename',
+                      'apply', 'do', 'if_none', 'if_else'}}
+MODEL_SHADOWED[2] = MODEL_SHADOWED[3] = MODEL_SHADOWED[1] - {'apply', 'do', 'if_none', 'if_else'}
+
+
 def laws(rng, tier, ctx):
     from pyg_base import ulist, Dict, dictattr
     count = 0
+    # assumption of the model (DAHeap.shadowed): the public attribute names of the three classes
+    for n in (1, 2, 3):
+        count += 1
+        names = {a for a in dir(_cls(n)) if not a.startswith('_')}
+        if names != MODEL_SHADOWED[n]:
+            yield Finding('divergence', dict(tag='law-shadowed-names', lines=[]), 'public attributes of class %d are %s, the model (DAHeap.shadowed) lists %s'
+                          % (n, sorted(names), sorted(MODEL_SHADOWED[n])))
+    # in-place list operations: the ulist afterwards is ulist(what a plain list would hold) - never a duplicate, first occurrences kept
+    m = 300 if tier == 'quick' else 6000
+    for _ in range(m):
+        pool = rng.sample(ELEMS, rng.choice([3, 5, 8]))
+        xs, ys = rand_elems(rng, pool), rand_elems(rng, pool)
+        x, i, n = rng.choice(pool), rng.choice([0, 0, 1, 2, 5]), rng.choice([0, 1, 2, 3])
+        for name, f in INPLACE:
+            u, ref = ulist(xs), _dedup(xs)
+            proto_op = {'append': '(c16 u.append 0 %s)' % enc(x), 'extend': '(c16 u.extend 0 %s)' % enc(ys), '+=': '(c16 u.iadd 0 %s)' % enc(ys),
+                        'insert': '(c16 u.insert 0 %d %s)' % (i, enc(x)), 'u[i]=x': '(c16 u.setitem 0 %d %s)' % (i, enc(x)),
+                        'u[i:j]=xs': '(c16 u.extend 0 %s)' % enc(ys), '*=': '(c16 u.imul 0 %d)' % n}[name]
+            case = dict(tag='law-ulist-inplace', lines=['(c16 u.new %s)' % enc(xs), proto_op])
+            count += 1
+            try:
+                f(ref, x, ys, i, n)
+            except IndexError:
+                continue
+            f(u, x, ys, i, n)
+            if type(u) is not ulist or list(u) != _dedup(ref):
+                yield Finding('violation', case, 'ulist after %s is %s; a list without duplicates in first-occurrence order would be %s' % (name, enc(list(u)), enc(_dedup(ref))))
     m = 400 if tier == 'quick' else 8000
     for _ in range(m):
         pool = rng.sample(ELEMS, rng.choice([3, 5, 8]))
@@ -586,26 +766,29 @@ def laws(rng, tier, ctx):
         cls = _cls(cls_n)
         d = cls(d0)
         ks = rand_keysel(rng, d0)
-        o = {k: rng.choice(VALS) for k in rng.sample(KEYS, rng.choice([0, 1, 2, 3]))}
+        o = rand_other(rng, d0)
+        if any(_has_empty(v) for v in o.values()):
+            continue
         case = dict(tag='law-dictattr', lines=['(c16 d.sub %s %s)' % (encd(cls_n, d0), enc(ks)), '(c16 d.and %s %s)' % (encd(cls_n, d0), enc(ks)),
                                                '(c16 d.add %s %s)' % (encd(cls_n, d0), enc(o))])
         ops = [('-', lambda x: x - ks, {k: v for k, v in d0.items() if k not in ks}), ('&', lambda x: x & ks, {k: v for k, v in d0.items() if k in ks}),
-               ('+', lambda x: x + o, {**d0, **o}), ('|', lambda x: x | o, {**d0, **o})]
+               ('+', lambda x: x + o, _ref_add(cls_n, d0, o)), ('|', lambda x: x | o, {**d0, **o})]
         if all(k in d0 for k in ks):
             ops.append(('[list]', lambda x: x[ks], {k: d0[k] for k in ks}))
         checks = []
+        deep0, deepo = _copy.deepcopy(d0), _copy.deepcopy(o)
         for name, f, want in ops:
             x = cls(d0)                      # a fresh operand per operator: an operator that writes its operand cannot derail the next law
             checks.append((name, f(x), want))
             count += 1
-            if dict(x) != d0 or list(x) != list(d0):
+            if dict(x) != deep0 or list(x) != list(d0) or o != deepo:
                 yield Finding('violation', case, 'dictattr operand modified by %s' % name)
         for name, got, want in checks:
             count += 1
             if type(got) is not cls:
                 yield Finding('violation', case, 'dictattr %s returned a %s, not a %s' % (name, type(got).__name__, cls.__name__))
-            elif dict(got) != want:
-                yield Finding('violation', case, 'dictattr %s = %s, expected %s' % (name, enc(dict(got)), enc(want)))
+            elif dict(got) != want or (name != '+' and list(got) != list(want)):
+                yield Finding('violation', case, 'dictattr %s = %s, expected %s (same key order)' % (name, enc(dict(got)), enc(want)))
         count += 2
         x = cls(d0)
         if list((x - ks).keys()) != list(d.keys() - ks):
@@ -654,4 +837,10 @@ def laws(rng, tier, ctx):
     yield count
 
 
-MATCHERS = {}
+def _k1(f):
+    """attribute access / attribute write on a name that is an attribute of the class or private (leading underscore)"""
+    m = re.search(r'attribute (?:access|write) d\.(\w+) ', f.detail or '')
+    return bool(m) and (m.group(1).startswith('_') or m.group(1) in MODEL_SHADOWED[1])
+
+
+MATCHERS = {'attribute_name_is_a_method_or_private': _k1}
